@@ -400,10 +400,65 @@ def rule_exact():
     return not failing, sites, failing
 
 
+def rule_tree_fields_frozen():
+    """C02.S.tree_fields_frozen: the fields that carry the representation invariant of expression trees (value, children, inner) are written only as
+    `self.<field> = ...` inside a constructor; nothing in einx mutates a children list in place, deletes such a field, writes it through setattr/__dict__,
+    or overrides attribute assignment in the tree classes. With the constructor contracts (C02.P.tree_*) the invariant value = prod/sum/inner therefore holds
+    for every stage3 node for its whole life time."""
+    import glob, os
+    from .. import REPO
+    FIELDS = ("value", "children", "inner")
+    MUT = ("append", "insert", "extend", "pop", "remove", "sort", "reverse", "clear", "__setitem__", "__delitem__")
+    sites, failing = [], []
+    for f in sorted(glob.glob(os.path.join(REPO, "einx/_src/**/*.py"), recursive=True)):
+        t = ast.parse(open(f).read())
+        r = os.path.relpath(f, REPO)
+        par = frame.parents(t)
+
+        def enclosing(n):
+            while n in par:
+                n = par[n]
+                if isinstance(n, (ast.FunctionDef, ast.Lambda)):
+                    return n
+            return None
+
+        for n in ast.walk(t):
+            if isinstance(n, ast.Attribute) and n.attr in FIELDS and isinstance(n.ctx, (ast.Store, ast.Del)):
+                fn = enclosing(n)
+                site = f"{r}:{n.lineno}:{ast.unparse(n)}"
+                sites.append(site)
+                if not (isinstance(n.ctx, ast.Store) and isinstance(n.value, ast.Name) and n.value.id == "self" and isinstance(fn, ast.FunctionDef) and fn.name == "__init__"):
+                    failing.append(site + " (field carrying the tree invariant written outside a constructor)")
+            if isinstance(n, ast.Subscript) and isinstance(n.ctx, (ast.Store, ast.Del)) and isinstance(n.value, ast.Attribute) and n.value.attr in FIELDS:
+                site = f"{r}:{n.lineno}:{ast.unparse(n)}"
+                sites.append(site)
+                failing.append(site + " (item store into a children list)")
+            if isinstance(n, ast.Call) and isinstance(n.func, ast.Attribute) and n.func.attr in MUT and isinstance(n.func.value, ast.Attribute) and n.func.value.attr in FIELDS:
+                site = f"{r}:{n.lineno}:{ast.unparse(n)[:70]}"
+                sites.append(site)
+                failing.append(site + " (in-place mutation of a children list)")
+            if isinstance(n, ast.Call) and ast.unparse(n.func) in ("setattr", "object.__setattr__", "delattr") and r.startswith("einx/_src/namedtensor/"):
+                site = f"{r}:{n.lineno}:{ast.unparse(n)[:70]}"
+                sites.append(site)
+                failing.append(site + " (reflective attribute write in the expression layer)")
+            if isinstance(n, ast.FunctionDef) and n.name in ("__setattr__", "__delattr__") and r.startswith("einx/_src/namedtensor/"):
+                failing.append(f"{r}:{n.lineno}: tree class overrides {n.name}")
+            if isinstance(n, ast.AugAssign) and isinstance(n.target, ast.Attribute) and n.target.attr in FIELDS:
+                failing.append(f"{r}:{n.lineno}:{ast.unparse(n)[:70]} (augmented assignment to a tree field)")
+    # the List children handed to List(...) must not be aliased to a list that is mutated afterwards: List.create builds a fresh list (children2)
+    return not failing, sites, failing
+
+
 def run(tier, seed):
+    from ..kernels.base import run_kernel
+    from ..kernels import c02_stage3_tree
     chk = Check("C02", tier, seed, "other")
+    for k in c02_stage3_tree.KERNELS:
+        chk.add_kernel(run_kernel(k, tier))
     ok, sites, failing = rule_exact()
     chk.add_rule("C02.S.exact", ok, sites, failing)
+    ok, sites, failing = rule_tree_fields_frozen()
+    chk.add_rule("C02.S.tree_fields_frozen", ok, sites, failing)
     n = 24 if tier == "quick" else 1500
     res = [x for r in harness.pmap(_work, [(seed, i) for i in range(n)]) for x in r]
     res += large_magnitudes()
